@@ -965,3 +965,110 @@ func vfPrinterUnit(t *testing.T, unit string, withReport bool) {
 }
 
 func TestVerifC11Printer(t *testing.T) { vfPrinterUnit(t, "C11Printer", false) }
+
+// vfChunkReader hands out the data in reads of at most n bytes.
+type vfChunkReader struct {
+	data []byte
+	n    int
+}
+
+func (c *vfChunkReader) Read(p []byte) (int, error) {
+	if len(c.data) == 0 {
+		return 0, io.EOF
+	}
+	k := c.n
+	if k > len(p) {
+		k = len(p)
+	}
+	if k > len(c.data) {
+		k = len(c.data)
+	}
+	copy(p, c.data[:k])
+	c.data = c.data[k:]
+	return k, nil
+}
+
+// vfServerResponseSizes: the server's start response through the real batch runner at sizes around the largest
+// accepted one (1 MiB), delivered in reads of several sizes: a complete response of up to the limit starts the batch
+// (every case gets its own verdict), one byte more is the "oversized response" start failure (every case a setup error).
+func vfServerResponseSizes(t *testing.T, unit string) {
+	en := verifkit.NewEnum(t, unit)
+	type row struct {
+		Size  int `json:"size"`
+		Chunk int `json:"chunk"`
+	}
+	sized := func(size int) []byte {
+		resp := &conformancev1.ServerCompatResponse{Host: "127.0.0.1", Port: 1}
+		for l := size - 24; l <= size; l++ {
+			if l < 0 {
+				continue
+			}
+			resp.PemCert = bytes.Repeat([]byte{'c'}, l)
+			if proto.Size(resp) == size {
+				data, _ := proto.Marshal(resp)
+				return data
+			}
+		}
+		return nil
+	}
+	const n = 2
+	for _, size := range []int{20, 4096, maxServerResponseSize / 2, maxServerResponseSize - 5, maxServerResponseSize - 4, maxServerResponseSize - 3, maxServerResponseSize - 1, maxServerResponseSize, maxServerResponseSize + 1} {
+		body := sized(size)
+		if body == nil {
+			continue
+		}
+		for _, chunk := range []int{1 << 30, 4, 5, 4093, 65536} {
+			r := row{size, chunk}
+			var l [4]byte
+			binary.BigEndian.PutUint32(l[:], uint32(len(body)))
+			stream := append(append([]byte{}, l[:]...), body...)
+			var testCases []*conformancev1.TestCase
+			expected := map[string]*conformancev1.ClientResponseResult{}
+			for i := 0; i < n; i++ {
+				exp := &conformancev1.ClientResponseResult{Payloads: []*conformancev1.ConformancePayload{{Data: []byte(fmt.Sprintf("payload-%d", i))}}}
+				testCases = append(testCases, &conformancev1.TestCase{Request: &conformancev1.ClientCompatRequest{TestName: vfC11Name(i)}, ExpectedResponse: exp})
+				expected[vfC11Name(i)] = exp
+			}
+			proc := &vfFakeProc{done: make(chan struct{})}
+			starter := processStarter(func(ctx context.Context, _ bool) (*process, error) {
+				return &process{processController: proc, stdin: &vfFakeStdin{}, stdout: &vfChunkReader{data: stream, n: chunk}, stderr: strings.NewReader("")}, nil
+			})
+			results := newResults(n, &testTrie{}, &testTrie{}, nil)
+			client := &vfFakeClient{c: vfC11Case{N: n, Delivery: "sync"}, expected: expected}
+			done := make(chan struct{})
+			go func() {
+				defer close(done)
+				runTestCasesForServer(context.Background(), false, false, serverInstance{}, testCases, nil, nil, starter, &vfC11Printer{}, &vfC11Printer{}, results, client, nil, false)
+			}()
+			var viol error
+			select {
+			case <-done:
+			case <-time.After(60 * time.Second):
+				viol = verifkit.Violf("response-size-hang", "batch did not end: %+v", r)
+			}
+			if viol == nil {
+				results.mu.Lock()
+				for i := 0; i < n && viol == nil; i++ {
+					o, ok := results.outcomes[vfC11Name(i)]
+					switch {
+					case !ok:
+						viol = verifkit.Violf("response-size-outcome-missing", "case %d has no outcome (%+v)", i, r)
+					case size <= maxServerResponseSize && (o.setupError || o.actualFailure != nil):
+						viol = verifkit.Violf("response-at-limit-rejected", "a complete server response of %d bytes (limit %d), read in chunks of %d, did not start the batch: case %d setupError=%v failure=%v", size, maxServerResponseSize, chunk, i, o.setupError, o.actualFailure)
+					case size > maxServerResponseSize && !o.setupError:
+						viol = verifkit.Violf("response-oversize-accepted", "a server response of %d bytes (limit %d) was accepted: case %d is not a setup error", size, maxServerResponseSize, i)
+					}
+				}
+				results.mu.Unlock()
+			}
+			en.Rec.Observe(r, []string{fmt.Sprintf("size-limit%+d", size-maxServerResponseSize), fmt.Sprintf("chunk:%d", chunk)}, size >= maxServerResponseSize-5)
+			if viol != nil && en.Fail(r, viol) {
+				en.Done(true)
+				return
+			}
+		}
+	}
+	en.Done(true)
+}
+
+func TestVerifC11ResponseSize(t *testing.T) { vfServerResponseSizes(t, "C11ResponseSize") }
